@@ -61,6 +61,7 @@ def scopes_stats(rows):
     nontrivial = 0
     outcomes = {}
     nrefs, nshadow, next_, nrec = 0, 0, 0, 0
+    n_so, n_dis, n_vs = 0, 0, 0
     samples = []
     for case, obs, pred in rows:
         h = hashlib.sha1(re.sub(r"^\(case \S+ ", "", case).encode()).digest()
@@ -76,6 +77,9 @@ def scopes_stats(rows):
         if h in distinct:
             continue
         distinct.add(h)
+        n_so += 1 if "(order-so " in case or "(order-so)" in case else 0
+        n_dis += 1 if re.search(r'\) [01] 1 (none|"[^"]*")\)', case) else 0
+        n_vs += case.count("(vs ")
         if isinstance(o, list) and len(o) > 2:
             sts, rev, ops, inl = _states(o)
             links = sts[-1][1] if sts and isinstance(sts[-1], list) else []
@@ -89,7 +93,9 @@ def scopes_stats(rows):
         if len(samples) < 2 and len(distinct) % 61 == 1:
             samples.append({"case": case[:500], "observed": obs[:500]})
     return {"cases": len(rows), "distinct": len(distinct), "distinct_nontrivial": nontrivial, "outcomes": outcomes,
-            "reference_occurrences": nrefs, "in_nested_scopes": nshadow, "to_external_namespaces": next_, "samples": samples}
+            "reference_occurrences": nrefs, "in_nested_scopes": nshadow, "to_external_namespaces": next_,
+            "cases_applied_through_a_step_output": n_so, "cases_with_a_disabled_property": n_dis,
+            "validate_serialize_ops_on_native_values": n_vs, "samples": samples}
 
 
 def scopes_direct(case, obs):
@@ -103,6 +109,12 @@ def scopes_direct(case, obs):
                 "(references to namespaces that are not applied yet must be left untouched)")
     pl = _P.case_payload(case)
     order = [_txt(x) for x in pl[3][1:]]
+    so = " [namespaces applied through a StepOutputSchema wrapping the scope]" if pl[3][0] == "order-so" else ""
+    r = _direct(o, order)
+    return (r + so) if r else None
+
+
+def _direct(o, order):
     sts, rev, ops, inl = _states(o)
     applied = set()
     prev = None
@@ -187,7 +199,11 @@ def register(props):
                 "members living in external namespaces; a self-referential and a mutually referential scope with inputs nested "
                 "1..150 levels) plus generated scope trees whose object ids come from one shared pool (so nested scopes collide), "
                 "with references to later objects of the nearest scope and to both external namespaces under every container, each "
-                "with 6-9 generated / mutated inputs. Observed: the link target of EVERY reference occurrence and "
+                "with 6-9 generated / mutated inputs; 8% of the optional properties are DISABLED (with / without a reason) whatever their "
+                "type — references under them must be linked all the same — and scopes that have one also get native values "
+                "carrying those fields for Validate / Serialize; half of the generated cases (and three fixed ones) apply the "
+                "namespaces and ask ValidateReferences THROUGH a StepOutputSchema wrapping the scope, the reverse-order run "
+                "applies them to the scope directly. Observed: the link target of EVERY reference occurrence and "
                 "ValidateReferences after construction and after each ApplyNamespace, the final state of the reverse order on a "
                 "fresh build, and unserialize / validate / serialize of every input on the schema and on its mechanically inlined "
                 "partner. distinct by case text; non-trivial = a reference under a container, in a nested scope, or to an external "
